@@ -226,7 +226,8 @@ func (g *simGitLab) serve(w http.ResponseWriter, r *http.Request) {
 // ---- tracker histories
 
 var c16Texts = []string{"plain text", "Ünïcödé ✓ text", "  leading and trailing  ", "multi\nline\n\nbody", "with\ttab and \x07 bell", "`code` **bold** <script>alert(1)</script>",
-	"trailing newline\n", "quote \" backslash \\ percent %s", "a ** to ** b", "emoji 🐛🔥", strings.Repeat("long ", 300)}
+	"trailing newline\n", "quote \" backslash \\ percent %s", "a ** to ** b", "emoji 🐛🔥", strings.Repeat("long ", 300),
+	"form\ffeed and vertical\vtab", "next\u0085line and c1 \u009b control", "nul \x00 del \x7f esc \x1b[31m", "zero\u200bwidth and bom \ufeff and sep \u2028 para \u2029", "\u00a0nbsp around\u00a0"}
 
 func (g *simGitLab) user(r *rng) int {
 	if len(g.users) < 4 || r.chance(1, 6) {
@@ -243,7 +244,7 @@ func (g *simGitLab) user(r *rng) int {
 }
 
 func oneLine(r *rng) string {
-	return pickOne(r, []string{"Crash on start", "Ünïcödé title ✓", "  spaces around  ", "title with \x07 bell", "tabs\tinside", "emoji 🐛", "quote \" and \\"})
+	return pickOne(r, []string{"Crash on start", "Ünïcödé title ✓", "  spaces around  ", "title with \x07 bell", "tabs\tinside", "emoji 🐛", "quote \" and \\", "form\ffeed", "nel\u0085 and c1\u009b", "line\u2028sep", "\u00a0nbsp\u00a0"})
 }
 
 // grow adds n random events; returns how many operations a correct importer adds for them
